@@ -399,8 +399,14 @@ impl QueryRouter {
         };
 
         match Parser::parse_sql(&PostgreSqlDialect {}, &query) {
+            #[cfg(feature = "verif")]
+            Ok(ast) => {
+                crate::vtrace!("qr_parse", "ok" => true, "n" => ast.len(), "code" => code.to_string());
+                Ok(ast)
+            }
             Ok(ast) => Ok(ast),
             Err(err) => {
+                crate::vtrace!("qr_parse", "ok" => false, "n" => 0, "code" => code.to_string());
                 debug!("{}: {}", err, query);
                 Err(Error::QueryRouterParserError(err.to_string()))
             }
